@@ -2,8 +2,8 @@
 (* Time fragment of the broker (service/sendrecv.go timeoutReader, receiver): the read
    deadline of 1.2 x KeepAlive is re-armed on every read.
 
-   Time is a grid of K/5.  A connection whose last packet is less than 1.2 K (6 grid
-   units) old is never dropped (ActiveNeverDropped); time cannot pass 1.6 K (8 units) of
+   Time is a grid of K/10.  A connection whose last packet is less than 1.2 K (12 grid
+   units) old is never dropped (ActiveNeverDropped); time cannot pass 1.6 K (16 units) of
    silence without the connection having been dropped (urgency, SilentDropped); an
    expiry is an abnormal end: the will is published; a PINGREQ is answered by a PINGRESP.
 
@@ -12,7 +12,7 @@
    connection is still up, and when it must be gone.                                  *)
 EXTENDS Integers, Sequences, TLC, Json
 
-CONSTANTS Gaps,        \* gaps between packets that keep the connection alive (< 5 units, i.e. < K)
+CONSTANTS Gaps,        \* gaps between packets that keep the connection alive (< 10 units, i.e. < K)
           LongGaps,    \* gaps well over 1.5 K: the connection must be gone afterwards
           MaxSends, Kinds
 
@@ -40,8 +40,8 @@ Next == (\E g \in Gaps, k \in Kinds : Send(g, k)) \/ (\E g \in LongGaps : Silenc
 Spec == Init /\ [][Next]_vars
 
 \* an expiry only ever happens after at least 1.2 K of silence, and none is overdue
-ActiveNeverDropped == [][(up /\ ~up') => (now' - last >= 6)]_vars
-SilentDropped == up => now - last < 8
+ActiveNeverDropped == [][(up /\ ~up') => (now' - last >= 12)]_vars
+SilentDropped == up => now - last < 16
 WillIffExpired == will <=> ~up
 Emit == up \/ PrintT(ToJson(hist))
 =============================================================================
